@@ -470,6 +470,11 @@ class Engine:
                 return v.length > 0
             return z3.BoolVal(True)
         if v.sort == "val":
+            if z3.is_app(v.t) and v.t.decl().kind() == z3.Z3_OP_ITE:
+                # a merged value (x if c else y, `a and b`): the truth of each alternative, so that fresh containers
+                # among them keep their own notion of emptiness
+                c, a, b = v.t.arg(0), v.t.arg(1), v.t.arg(2)
+                return z3.If(c, self.truth_of(tv_val(a)), self.truth_of(tv_val(b)))
             fr = self.run.fresh_of(v.t)
             if fr is not None:
                 if fr.kind in ("list", "tuple", "deque"):
@@ -1865,6 +1870,21 @@ class Run:
             self.assume(z3.ForAll([k], z3.Select(arr, k) == S.seq_nth(t, k), patterns=[z3.Select(arr, k)]))
             self.assume(S.seq_len(t) >= 0)
             st = self.world_lists[t.get_id()] = {"term": t, "len": S.seq_len(t), "arr": arr}
+        return st
+
+    def world_dict_state(self, t, create=False):
+        """Mutable state of a world dict listed in `modifies` (stored next to the world lists, so that old() and the
+        pre-state evaluation swap it together with them)."""
+        key = -t.get_id() - 1
+        st = self.world_lists.get(key)
+        if st is None and create:
+            xk = z3.Const(self.fresh_name("wd_k"), S.Val)
+            xi = z3.Int(self.fresh_name("wd_i"))
+            ln = S.seq_len(S.dict_keys(t))
+            self.assume(ln >= 0)
+            st = self.world_lists[key] = {"term": t, "dict": True, "len": ln,
+                                         "has": z3.Lambda([xk], S.dict_has(t, xk)), "get": z3.Lambda([xk], S.dict_get(t, xk)),
+                                         "arr": z3.Lambda([xi], S.seq_nth(S.dict_keys(t), xi))}
         return st
 
     def world_list_assign(self, t, view):
